@@ -150,6 +150,8 @@ def seed_value(s):
     """Integer value of a seed literal (python int, {'__np__': [dtype, value]} or {'__ss__': [entropy, name]})."""
     if isinstance(s, dict):
         return s["__np__"][1] if "__np__" in s else s["__ss__"][0]
+    if isinstance(s, list):
+        return s[0]
     return s
 
 
@@ -165,7 +167,7 @@ def seed_object(world, s):
     """Python value of a seed literal.  A SeedSequence literal names ONE object that the simulated caller
     keeps and passes again (numpy's default_rng accepts it and does not change it)."""
     from .canon import dec
-    if s is not None and not isinstance(s, (int, dict)):
+    if s is not None and not isinstance(s, (int, dict, list)):
         return s          # already a python object
     if isinstance(s, dict) and "__ss__" in s:
         objs = world.__dict__.setdefault("seed_objects", {})
@@ -192,6 +194,8 @@ def seed_alphabet(g):
         out.append(np_seed(g, 0))
     if g.random() < 0.2:
         out.append({"__ss__": [g.getrandbits(32), "ss%d" % g.getrandbits(16)]})
+    if g.random() < 0.12:
+        out.append([g.getrandbits(16), g.getrandbits(16), g.randint(0, 5)])      # a sequence of ints is a valid seed
     if g.random() < 0.15:
         # beyond what np.random.seed accepts (it raises, consistently) but fine for default_rng
         out.append(g.choice([2 ** 32, 2 ** 32 + g.getrandbits(20), 2 ** 63 + g.getrandbits(30)]))
@@ -203,4 +207,4 @@ def seed_class(s):
     if v is None:
         return "none"
     c = "0" if v == 0 else "small" if v < 1000 else "32bit" if v < 2 ** 32 else "big"
-    return c + ("/np" if seed_is_numpy(s) else "/ss" if seed_is_object(s) else "")
+    return c + ("/np" if seed_is_numpy(s) else "/ss" if seed_is_object(s) else "/list" if isinstance(s, list) else "")
